@@ -1038,6 +1038,7 @@ func runC17rest(p *an.Prog, r *an.Run, tier string) {
 			}
 		}
 		r.Floor("gorilla-io-calls", nIO, 2)
+		checkReadErrorTerminal(p, r)
 		r.Check(len(bad) == 0, "single-writer", "gorilla.wsCodec", token.NoPos, "every connection write holds muWrite, every read holds muRead", "%s", strings.Join(bad, "; "))
 	}
 
@@ -1308,4 +1309,69 @@ func checkErrorResultReported(p *an.Prog, r *an.Run) {
 	}
 	bad := errPosGuard(p, mc)
 	r.Check(len(bad) == 0, "error-result", an.FuncName(mc), mc.Pos(), "a method's error result is reported whenever it has one", "%s", strings.Join(bad, "; "))
+}
+
+// checkReadErrorTerminal: gorilla's contract for readers — once a read method of the connection has failed, every later
+// read fails too, and after 1000 of them the library panics ("repeated read on failed websocket connection"); the
+// application must leave its read loop on the first error. In every function of the shipped codec package, no read
+// method of *websocket.Conn is reachable from the failure edge of one (a "skip the undecodable message and read on"
+// loop turns a single malformed frame into a process-killing panic). Shared by C15 and C17.
+func checkReadErrorTerminal(p *an.Prog, r *an.Run) {
+	isConnRead := func(c ssa.CallInstruction) bool {
+		if c.Common().IsInvoke() {
+			// the connection held behind a small interface of the codec package
+			switch c.Common().Method.Name() {
+			case "ReadJSON", "NextReader":
+				return true
+			}
+			return false
+		}
+		f := an.CallObj(c)
+		if f == nil || an.RecvNamed(f) == nil || an.RecvNamed(f).Obj().Pkg() == nil {
+			return false
+		}
+		if an.RecvNamed(f).Obj().Pkg().Path() != "github.com/gorilla/websocket" || an.RecvNamed(f).Obj().Name() != "Conn" {
+			return false
+		}
+		switch f.Name() {
+		case "ReadJSON", "ReadMessage", "NextReader":
+			return true
+		}
+		return false
+	}
+	var bad []string
+	n := 0
+	for _, fn := range p.Repo {
+		top := fn
+		for top.Parent() != nil {
+			top = top.Parent()
+		}
+		if top.Pkg == nil || !strings.HasSuffix(top.Pkg.Pkg.Path(), "jsonrpc2/ws/gorilla") || p.IsTestFunc(fn) {
+			continue
+		}
+		for _, c := range an.Calls(fn, false) {
+			if !isConnRead(c) {
+				continue
+			}
+			n++
+			u := an.ErrEdges(c)
+			if u.Returned && len(u.Fail) == 0 {
+				continue
+			}
+			if u.Dropped || len(u.Fail) == 0 {
+				bad = append(bad, an.FuncName(fn)+" does not branch on the error of "+callName(c)+" at "+p.Pos(c.Pos()))
+				continue
+			}
+			for _, e := range u.Fail {
+				hit := pathFromBlock(fn, e.To, nil, func(x ssa.Instruction) bool {
+					cc, ok := x.(ssa.CallInstruction)
+					return ok && isConnRead(cc)
+				})
+				if hit != nil {
+					bad = append(bad, an.FuncName(fn)+" can read from the connection again at "+p.Pos(hit.Pos())+" after "+callName(c)+" failed at "+p.Pos(c.Pos())+": gorilla's read errors are permanent and the library panics on the 1000th repeated read, so one malformed frame kills the process")
+				}
+			}
+		}
+	}
+	r.Check(len(bad) == 0 && n > 0, "read-error-terminal", "gorilla.wsCodec", token.NoPos, "no connection read follows a failed one", "%s (connection reads judged: %d)", strings.Join(dedup(bad), "; "), n)
 }
